@@ -337,6 +337,11 @@ fn eq_probes(rng: &mut Rng, t: &mut Trace, dt: &DataType) {
     let Ok(rows) = guarded(|| tok::rows(a.as_ref())) else { return };
     let ty = tok::type_str(dt);
     let fam = tok::family(dt);
+    let fam = match dt {
+        DataType::Union(_, arrow_schema::UnionMode::Sparse) => "union-sparse",
+        DataType::Union(_, arrow_schema::UnionMode::Dense) => "union-dense",
+        _ => fam,
+    };
     let rs = mutate::realisations(rng, &a, 7);
     for (n1, x) in &rs {
         let rx = guarded(|| tok::rows(x.as_ref())).unwrap_or_default();
